@@ -159,6 +159,9 @@ pub fn c11_alphabet() -> impl Fn(&Model) -> Vec<Op> + Sync {
         let mut ops = vec![];
         for f in m.funcs.iter().filter(|f| f.live && f.import.is_none()) {
             ops.push(Op::LocalToImport(f.handle));
+            if m.twin_type {
+                ops.push(Op::LocalToImportTwin(f.handle));
+            }
         }
         if m.funcs.iter().filter(|f| f.live && f.import.as_ref().map(|(mo, _)| mo == "added").unwrap_or(false)).count() < 2 {
             ops.push(Op::AddImportFunc);
@@ -180,12 +183,12 @@ pub fn check_c11(tier: Tier) -> i32 {
     let depth = tier.pick(3, 5);
     let bases: Vec<Base> = fn_bases().into_iter().filter(|b| b.name != "fn-empty" && b.name != "fn-imports-only").collect();
     run.rule = format!(
-        "all histories of length <= {} over: convert local function h to an import (module \"conv\", fresh name, its own type) for every live local function, in every order and subset, interleaved with <= 2 import additions and <= 1 deletion of an unreferenced function, on {} base modules (every reference-site kind). Oracle: the converted body's marker is gone from the code section, an import (conv, name) exists, every former site of the function designates that import, all other functions keep their identity, the output validates.",
+        "all histories of length <= {} over: convert local function h to an import (module \"conv\", fresh name, its own type - or, on the base with twin types, the structurally identical type 1, which the import section must then declare) for every live local function, in every order and subset, interleaved with <= 2 import additions and <= 1 deletion of an unreferenced function, on {} base modules (every reference-site kind). Oracle: the converted body's marker is gone from the code section, an import (conv, name) exists, every former site of the function designates that import, all other functions keep their identity, the output validates.",
         depth,
         bases.len()
     );
     let judge = |c: &Clause, _h: &[Op]| matches!(c.kind, ClauseKind::Func | ClauseKind::Generic | ClauseKind::DupId);
-    let relevant = |h: &[Op]| h.iter().any(|o| matches!(o, Op::LocalToImport(_)));
+    let relevant = |h: &[Op]| h.iter().any(|o| matches!(o, Op::LocalToImport(_) | Op::LocalToImportTwin(_)));
     let alpha = c11_alphabet();
     let s = Search { bases: &bases, depth, cfg: CFG1, enabled: &alpha, judge: &judge, relevant: &relevant, max_states: 2_000_000 };
     run_search(&mut run, &s);
